@@ -18,6 +18,26 @@ def sha256(b):
     return hashlib.sha256(b).digest()
 
 
+def _sp_sha1(ip, b):
+    from pyvc.builtins_model import hash_fn
+    return hash_fn(ip, 'sha1', b)
+
+
+@spec(special=_sp_sha1)
+def sha1(b):
+    return hashlib.sha1(b).digest()
+
+
+def _sp_ripemd160(ip, b):
+    from pyvc.builtins_model import hash_fn
+    return hash_fn(ip, 'ripemd160', b)
+
+
+@spec(special=_sp_ripemd160)
+def ripemd160(b):
+    return hashlib.new('ripemd160', b).digest()
+
+
 @spec
 def dsha256(b):
     return sha256(sha256(b))
